@@ -1,21 +1,214 @@
 /-
   C19 — position navigation is total and consistent with forward measurement.
-  INTERIM file: only the forward-measurement clause is proved here (end
-  measurement from zero is the canonical end; from any start it is
-  `canonFrom`).  The twelve per-method refinement theorems against
-  `Spec.navSpec` are being added; until then they are carried by the `nav`
-  correspondence family + oracle and listed as partial in the evidence.
+
+  Setting.  A well-formed text `t` is cut as `t = pre ++ suf` at an *aligned*
+  offset (any character boundary, except between the CR and the LF of a CRLF
+  line ending when CRLF is the configured ending).  The base position handed
+  to the library is the canonical position of that offset, `p = canon m pre`
+  (byte offset, number of line endings before it, display width since the last
+  one, tabs advancing to the next tab stop).  `Spec.navSpec m pre suf pat f`
+  says, in terms of the forward-defined `linesOf` / `canon` only, what each of
+  the twelve `ColumnMetrics` navigation methods must answer there.
+
+  Proved here, for every line-ending style, every tab width (`1 ≤ tab`, the
+  trusted-base assumption: 0 divides by zero in Rust), every character width
+  assignment, every pattern and every character predicate, unbounded in the
+  text: all twelve methods return (never panic) exactly the specified answer.
+  Consequences: `next`/`previous` are mutually inverse on aligned canonical
+  positions, and every answer is again the canonical position of an offset of
+  `t` (it is literally `canon m` of a prefix of `t`), i.e. what forward
+  measurement from the start of the text would report (C03).
 -/
-import TephraProofs.Canon
+import TephraProofs.Nav
 import TephraModel.Fam.Nav
 
 namespace Tephra.Props
 open Tephra Tephra.Spec
 
-theorem C19_end_measurement (m : Metrics) (p : Pos) (t : Text) (hwf : Text.WF t) :
-    endSuf m p t = canonFrom m p t := endSuf_eq_canonFrom m p t hwf
+variable {m : Metrics} {pre suf : Text}
 
-example : Text.WF [⟨97, 1, 1⟩, ⟨9, 1, 0⟩] := by
-  intro c hc; simp at hc; rcases hc with rfl | rfl <;> decide
+/-- (1) `next_position`: the canonical position after the first unit of the suffix (a whole line
+ending, else one character); `None` at the end of the text. -/
+theorem C19_next (_htab : 1 ≤ m.tab) (pat : Text) (f : Ch → Bool) (hwf : Text.WF (pre ++ suf))
+    (hal : aligned m pre suf = true) :
+    nextPosition m (pre ++ suf) (canon m pre) = .ok (navSpec m pre suf pat f).next :=
+  nextPosition_cut hwf hal
+
+/-- (2) `previous_position`: the canonical position before the last unit of the prefix; `None` at
+the start of the text. -/
+theorem C19_previous (_htab : 1 ≤ m.tab) (pat : Text) (f : Ch → Bool)
+    (hwf : Text.WF (pre ++ suf)) (_hal : aligned m pre suf = true) :
+    previousPosition m (pre ++ suf) (canon m pre) = .ok (navSpec m pre suf pat f).prev :=
+  previousPosition_cut hwf
+
+/-- (3) `line_start_position`: the canonical position just after the last line ending in the
+prefix (offset 0 if there is none). -/
+theorem C19_line_start (_htab : 1 ≤ m.tab) (pat : Text) (f : Ch → Bool)
+    (hwf : Text.WF (pre ++ suf)) (_hal : aligned m pre suf = true) :
+    lineStartPosition m (pre ++ suf) (canon m pre) = .ok (navSpec m pre suf pat f).lineStart :=
+  lineStartPosition_cut hwf
+
+/-- (4) `line_end_position`: the canonical position just before the first line ending in the suffix
+(the end of the text if there is none). -/
+theorem C19_line_end (_htab : 1 ≤ m.tab) (pat : Text) (f : Ch → Bool)
+    (hwf : Text.WF (pre ++ suf)) (hal : aligned m pre suf = true) :
+    lineEndPosition m (pre ++ suf) (canon m pre) = .ok (navSpec m pre suf pat f).lineEnd :=
+  lineEndPosition_cut hwf hal
+
+/-- (5) `previous_line_end_position`: the canonical position just before the last line ending in
+the prefix; `None` on the first line. -/
+theorem C19_previous_line_end (_htab : 1 ≤ m.tab) (pat : Text) (f : Ch → Bool)
+    (hwf : Text.WF (pre ++ suf)) (_hal : aligned m pre suf = true) :
+    previousLineEndPosition m (pre ++ suf) (canon m pre)
+      = .ok (navSpec m pre suf pat f).prevLineEnd :=
+  previousLineEndPosition_cut hwf
+
+/-- (6) `next_line_start_position`: the canonical position just after the first line ending in the
+suffix; `None` on the last line. -/
+theorem C19_next_line_start (_htab : 1 ≤ m.tab) (pat : Text) (f : Ch → Bool)
+    (hwf : Text.WF (pre ++ suf)) (hal : aligned m pre suf = true) :
+    nextLineStartPosition m (pre ++ suf) (canon m pre)
+      = .ok (navSpec m pre suf pat f).nextLineStart :=
+  nextLineStartPosition_cut hwf hal
+
+/-- (7) `start_position`: iterating `previous_position` terminates at the zero position. -/
+theorem C19_start (_htab : 1 ≤ m.tab) (pat : Text) (f : Ch → Bool)
+    (hwf : Text.WF (pre ++ suf)) (_hal : aligned m pre suf = true) :
+    startPosition m (pre ++ suf) (canon m pre) = .ok (navSpec m pre suf pat f).start :=
+  startPosition_cut hwf
+
+/-- (8) `end_position`: the canonical position of the end of the text. -/
+theorem C19_end (_htab : 1 ≤ m.tab) (pat : Text) (f : Ch → Bool)
+    (hwf : Text.WF (pre ++ suf)) (hal : aligned m pre suf = true) :
+    endPosition m (pre ++ suf) (canon m pre) = .ok (navSpec m pre suf pat f).end_ :=
+  endPosition_cut hwf hal
+
+/-- (9) `position_after_str`: `Some` exactly when the pattern is non-empty, the suffix starts with
+it, and it ends on an aligned offset; then the canonical position after it. -/
+theorem C19_after_str (_htab : 1 ≤ m.tab) (pat : Text) (f : Ch → Bool)
+    (hwf : Text.WF (pre ++ suf)) (hal : aligned m pre suf = true) :
+    positionAfterStr m (pre ++ suf) (canon m pre) pat
+      = .ok (navSpec m pre suf pat f).afterStr :=
+  positionAfterStr_cut pat hwf hal
+
+/-- (10) `position_after_chars_matching`: the canonical position after the longest run of whole
+units whose characters all satisfy `f`; `None` if that run is empty. -/
+theorem C19_after_chars (_htab : 1 ≤ m.tab) (pat : Text) (f : Ch → Bool)
+    (hwf : Text.WF (pre ++ suf)) (hal : aligned m pre suf = true) :
+    positionAfterCharsMatching m f (pre ++ suf) (canon m pre)
+      = .ok (navSpec m pre suf pat f).afterChars :=
+  positionAfterCharsMatching_cut f hwf hal
+
+/-- (11) `next_position_after_chars_matching`: the next position if all characters of the first
+unit satisfy `f`, else `None`. -/
+theorem C19_next_after_chars (_htab : 1 ≤ m.tab) (pat : Text) (f : Ch → Bool)
+    (hwf : Text.WF (pre ++ suf)) (hal : aligned m pre suf = true) :
+    nextPositionAfterCharsMatching m f (pre ++ suf) (canon m pre)
+      = .ok (navSpec m pre suf pat f).nextAfterChars :=
+  nextPositionAfterCharsMatching_cut f hwf hal
+
+/-- (12) `is_line_break`: true exactly when the suffix starts with a line ending. -/
+theorem C19_is_line_break (_htab : 1 ≤ m.tab) (pat : Text) (f : Ch → Bool)
+    (hwf : Text.WF (pre ++ suf)) (_hal : aligned m pre suf = true) :
+    isLineBreak m (pre ++ suf) (canon m pre).byte = .ok (navSpec m pre suf pat f).isBreak :=
+  isLineBreak_cut hwf
+
+/-- C19, combined: at every aligned canonical position of every well-formed text the twelve
+navigation methods return exactly what the specification requires. -/
+theorem C19_navigation (htab : 1 ≤ m.tab) (pat : Text) (f : Ch → Bool)
+    (hwf : Text.WF (pre ++ suf)) (hal : aligned m pre suf = true) :
+    Fam.Nav.model m (pre ++ suf) (canon m pre) pat f
+      = Fam.Nav.ofSpec (navSpec m pre suf pat f) := by
+  unfold Fam.Nav.model Fam.Nav.ofSpec
+  rw [C19_next htab pat f hwf hal, C19_previous htab pat f hwf hal,
+    C19_line_start htab pat f hwf hal, C19_line_end htab pat f hwf hal,
+    C19_previous_line_end htab pat f hwf hal, C19_next_line_start htab pat f hwf hal,
+    C19_start htab pat f hwf hal, C19_end htab pat f hwf hal, C19_after_str htab pat f hwf hal,
+    C19_after_chars htab pat f hwf hal, C19_next_after_chars htab pat f hwf hal,
+    C19_is_line_break htab pat f hwf hal]
+
+/-- Totality: none of the twelve calls panics (no slice off a character boundary, no failed
+`expect`, no arithmetic underflow, and `start_position` terminates). -/
+theorem C19_total (htab : 1 ≤ m.tab) (pat : Text) (f : Ch → Bool)
+    (hwf : Text.WF (pre ++ suf)) (hal : aligned m pre suf = true) :
+    nextPosition m (pre ++ suf) (canon m pre) ≠ .panic ∧
+    previousPosition m (pre ++ suf) (canon m pre) ≠ .panic ∧
+    lineStartPosition m (pre ++ suf) (canon m pre) ≠ .panic ∧
+    lineEndPosition m (pre ++ suf) (canon m pre) ≠ .panic ∧
+    previousLineEndPosition m (pre ++ suf) (canon m pre) ≠ .panic ∧
+    nextLineStartPosition m (pre ++ suf) (canon m pre) ≠ .panic ∧
+    startPosition m (pre ++ suf) (canon m pre) ≠ .panic ∧
+    endPosition m (pre ++ suf) (canon m pre) ≠ .panic ∧
+    positionAfterStr m (pre ++ suf) (canon m pre) pat ≠ .panic ∧
+    positionAfterCharsMatching m f (pre ++ suf) (canon m pre) ≠ .panic ∧
+    nextPositionAfterCharsMatching m f (pre ++ suf) (canon m pre) ≠ .panic ∧
+    isLineBreak m (pre ++ suf) (canon m pre).byte ≠ .panic := by
+  rw [C19_next htab pat f hwf hal, C19_previous htab pat f hwf hal,
+    C19_line_start htab pat f hwf hal, C19_line_end htab pat f hwf hal,
+    C19_previous_line_end htab pat f hwf hal, C19_next_line_start htab pat f hwf hal,
+    C19_start htab pat f hwf hal, C19_end htab pat f hwf hal, C19_after_str htab pat f hwf hal,
+    C19_after_chars htab pat f hwf hal, C19_next_after_chars htab pat f hwf hal,
+    C19_is_line_break htab pat f hwf hal]
+  simp
+
+/-- Round trip: whenever `next_position` moves from the base to `q`, `previous_position` at `q`
+moves back to the base. -/
+theorem C19_next_then_previous (_htab : 1 ≤ m.tab) (hwf : Text.WF (pre ++ suf))
+    (hal : aligned m pre suf = true) {q : Pos}
+    (hq : nextPosition m (pre ++ suf) (canon m pre) = .ok (some q)) :
+    previousPosition m (pre ++ suf) q = .ok (some (canon m pre)) := by
+  have hws := (WF_append.mp hwf).2
+  rw [nextPosition_cut hwf hal] at hq
+  cases hu : firstUnit m suf with
+  | none => rw [hu] at hq; simp at hq
+  | some u =>
+    rw [hu] at hq; simp at hq; subst hq
+    obtain ⟨rest, e, _, _⟩ := firstUnit_some hws hu
+    subst e
+    have hwf' : Text.WF ((pre ++ u) ++ rest) := by rwa [List.append_assoc]
+    have := previousPosition_cut (m := m) hwf'
+    rw [List.append_assoc] at this
+    rw [this, lastUnit_after_firstUnit hal hws hu]
+    simp
+
+/-- Round trip: whenever `previous_position` moves from the base to `q`, `next_position` at `q`
+moves forward to the base again. -/
+theorem C19_previous_then_next (_htab : 1 ≤ m.tab) (hwf : Text.WF (pre ++ suf))
+    (hal : aligned m pre suf = true) {q : Pos}
+    (hq : previousPosition m (pre ++ suf) (canon m pre) = .ok (some q)) :
+    nextPosition m (pre ++ suf) q = .ok (some (canon m pre)) := by
+  rw [previousPosition_cut hwf] at hq
+  cases hu : lastUnit m pre with
+  | none => rw [hu] at hq; simp at hq
+  | some u =>
+    rw [hu] at hq; simp at hq; subst hq
+    obtain ⟨a, e, _⟩ := lastUnit_cases hu
+    subst e
+    obtain ⟨h1, h2⟩ := firstUnit_after_lastUnit hal hu
+    have hwf' : Text.WF (a ++ (u ++ suf)) := by rwa [← List.append_assoc]
+    have := nextPosition_cut hwf' h2
+    rw [← List.append_assoc] at this
+    simp only [List.length_append, Nat.add_sub_cancel, List.take_left']
+    rw [this, h1]
+    simp
+
+/-- Non-vacuity: CRLF text `"a⇥\r\n世b"` (tab width 4), cut after the line ending (offset 4,
+canonical position (4,1,0)).  The cut is aligned and well-formed, and the specification is not
+trivial there: next = (7,1,2) over the wide character, previous = (2,0,4) back over the whole
+CRLF to the column reached by the tab, the line starts at this very offset, the previous
+line ended at (2,0,4), and the text ends at (8,1,3). -/
+example :
+    let m : Metrics := ⟨.crlf, 4⟩
+    let pre : Text := [⟨97, 1, 1⟩, ⟨9, 1, 0⟩, ⟨13, 1, 0⟩, ⟨10, 1, 0⟩]
+    let suf : Text := [⟨19990, 3, 2⟩, ⟨98, 1, 1⟩]
+    let S := navSpec m pre suf [⟨19990, 3, 2⟩] (fun c => c.code ≥ 128)
+    1 ≤ m.tab ∧ Text.WF (pre ++ suf) ∧ aligned m pre suf = true ∧ canon m pre = ⟨4, 1, 0⟩ ∧
+      S.next = some ⟨7, 1, 2⟩ ∧ S.prev = some ⟨2, 0, 4⟩ ∧ S.lineStart = ⟨4, 1, 0⟩ ∧
+      S.prevLineEnd = some ⟨2, 0, 4⟩ ∧ S.end_ = ⟨8, 1, 3⟩ ∧ S.isBreak = false := by
+  refine ⟨by decide, ?_, by decide, ?_, ?_, ?_, ?_, ?_, ?_, ?_⟩
+  · intro c hc; simp at hc; rcases hc with rfl | rfl | rfl | rfl | rfl | rfl <;> decide
+  all_goals
+    simp [navSpec, canon, canonFrom, linesOf, breakAt, breakBefore, lbCodes, lbLen, stripCodes,
+      colWidth, bytes, Pos.zero, firstUnit, lastUnit, curLinePre, curLineSuf]
 
 end Tephra.Props
